@@ -12,9 +12,10 @@ def handle : List String → Option String
         (← parseList? parseRat? knots) (← parseList? parseRat? xs) (← parseList? parseRat? ys) (← parseList? parseRat? ws)
         (← parseList? parseRat? aux) (← parseList? parseRat? c)
       some s!"{showRat r.1} {showRat r.2}"
-  | ["c07.berr2", degR, degC, dR, dC, lamR, lamC, knotsR, knotsC, xs, zs, Y, W, C] => do
+  | ["c07.berr2", degR, degC, dR, dC, lamR, lamC, iasls, lam1R, lam1C, knotsR, knotsC, xs, zs, Y, W, C] => do
       let pm := fun (t : String) => (t.splitOn ";").mapM (parseList? parseRat?)
       let r := backwardErrorP2 (← degR.toNat?) (← degC.toNat?) (← dR.toNat?) (← dC.toNat?) (← parseRat? lamR) (← parseRat? lamC)
+        (iasls == "1") (← parseRat? lam1R) (← parseRat? lam1C)
         (← parseList? parseRat? knotsR) (← parseList? parseRat? knotsC) (← parseList? parseRat? xs) (← parseList? parseRat? zs)
         (← pm Y) (← pm W) (← pm C)
       some s!"{showRat r.1} {showRat r.2}"
